@@ -18,6 +18,9 @@ def resStr : Option (List Got) → String
 def bind (j : Json) : Json := Id.run do
   let ps : List Param := (J.arr (J.get j "params")).toList.map fun p =>
     let a := J.arr p; ⟨J.hx a[0]!, J.bool a[1]!, J.bool a[2]!⟩
+  -- names with a rune whose Unicode class the model does not know are not judged
+  if ps.any (fun p => !nameModelled p.name) then
+    return J.obj [("id", J.get j "id"), ("skipped", "parameter name with a rune outside the model's class table")]
   let mut agree := true
   let mut spec := true
   let mut note := ""
